@@ -28,6 +28,7 @@ FUNCTIONS = ['StokesPyTree._operation/_roperation and all arithmetic dunders', '
              'furax.tree.dot/as_promoted_dtype/as_structure/full_like/zeros_like/ones_like/normal_like/uniform_like/is_leaf']
 BOUNDS = {'quick': 'Stokes I/QU/IQU/IQUV, component shapes (2,) and (1,2); operand kinds: Python float, traced 0-d array, same-shape array, broadcast array, same-kind container; 5 operators x direct/reflected',
           'thorough': 'same'}
+BOUNDS['quick'] += '; x @ y with complex leaves for the four kinds (exact in Q(i))'
 BOUNDS['quick'] += '; from_stokes with keywords in every order (1+2+6+24), positional, from_iquv, pytree round trip on symbolic components'
 STUBS = []
 ASSUMPTIONS = ['real arithmetic; division by a value that may be 0 is compared through the same guarded 1/x atom on both sides',
@@ -55,6 +56,7 @@ def cases(tier, seed):
         out.append(('factories', st))
         out.append(('construct', st))
     out += [('dot', 'real'), ('dot', 'complex'), ('dot', 'stokes'), ('helpers',), ('reject',)]
+    out += [('cmatmul', st) for st in KINDS]
     return out
 
 
@@ -99,6 +101,8 @@ def run_case(key, twin=False):
         return _factories(key)
     if k == 'construct':
         return _construct(key)
+    if k == 'cmatmul':
+        return _cmatmul(key, twin)
     if k == 'helpers':
         return _helpers()
     return _reject()
@@ -237,6 +241,35 @@ def _dot(key, twin):
         acc = acc + ((y.conj() * x) if twin else (x.conj() * y))
     g = E.flat_elems(got, ctx)[0]
     res = [('Hermitian dot conjugates the first argument', dec.decide(ctx, [(g, acc)]))]
+    return _finish(ctx, dec, res, dict(case=repr(key), out_dtype=str(gs.dtype)), key, twin)
+
+
+def _cmatmul(key, twin=False):
+    """x @ y on containers with COMPLEX leaves: the Hermitian sum with the LEFT operand conjugated, equal to furax.tree.dot(x, y)."""
+    from furax import tree as ft
+    _, st = key
+    cls = _cls(st)
+    ctx = E.Ctx()
+    ctx.field = Field.get(4)
+    dec = Decider()
+    rs = cls.structure_for((2,), f64)
+    names = ('xr', 'xi', 'yr', 'yi')
+
+    def mk(r, i):
+        return cls(*[jax.lax.complex(a, b) for a, b in zip(_comp(r), _comp(i))])
+    args = [(n, rs, 'sym') for n in names]
+    got, gs, _ = E.run(ctx, lambda xr, xi, yr, yi: mk(xr, xi) @ mk(yr, yi), args)
+    viad, _, _ = E.run(ctx, lambda xr, xi, yr, yi: ft.dot(mk(xr, xi), mk(yr, yi)), args)
+    F = ctx.field
+    xr, xi, yr, yi = (E.flat_elems(E.symbols(n, rs)) for n in names)
+    acc = Cyc.of(F, 0)
+    for a, b, c, d in zip(xr, xi, yr, yi):
+        x = Cyc.of(F, a) + F.I * b
+        y = Cyc.of(F, c) + F.I * d
+        acc = acc + ((y.conj() * x) if twin else (x.conj() * y))
+    g = E.flat_elems(got, ctx)[0]
+    res = [('x @ y conjugates the left operand', dec.decide(ctx, [(g, acc)])),
+           ('x @ y == tree.dot(x, y)', dec.decide(ctx, [(g, E.flat_elems(viad, ctx)[0])]))]
     return _finish(ctx, dec, res, dict(case=repr(key), out_dtype=str(gs.dtype)), key, twin)
 
 
@@ -442,6 +475,18 @@ def replay(key, model, info):
             outs.append(op(a, b))
         close, msg = trees_close(got, type(t)(*outs))
         return (not close), f'{key}: {msg}'
+    if key[0] == 'cmatmul':
+        from furax import tree as ft
+        cls = _cls(key[1])
+        rs = cls.structure_for((2,), f64)
+        xr, xi, yr, yi = (model_tree(model, n, rs) for n in ('xr', 'xi', 'yr', 'yi'))
+        x = cls(*[a + 1j * b for a, b in zip(_comp(xr), _comp(xi))])
+        y = cls(*[a + 1j * b for a, b in zip(_comp(yr), _comp(yi))])
+        got = complex(x @ y)
+        want = sum(complex(jnp.sum((jnp.conj(b) * a) if twin else (jnp.conj(a) * b))) for a, b in zip(_comp(x), _comp(y)))
+        viad = complex(ft.dot(x, y))
+        bad = abs(got - want) > 1e-9 * max(1, abs(want)) or (not twin and abs(got - viad) > 1e-9 * max(1, abs(viad)))
+        return bad, f'x @ y = {got}, sum conj(x_k) y_k = {want}, tree.dot(x, y) = {viad}'
     if key[0] == 'dot' and key[1] == 'complex':
         from furax import tree as ft
         st = {'a': S(2), 'b': S(2)}
